@@ -707,5 +707,40 @@ def r01_15(ctx):
     return r
 
 
+def r01_16(ctx):
+    """'late acknowledgement packets': a SACK that was overtaken in the network carries an advertised window that is as
+    out of date as its acknowledgements. The late-SACK filter protects the sent queue; the window needs the same
+    protection, because for an IDLE sender (everything acknowledged, nothing in flight) no newer SACK will ever arrive to
+    correct a stale a_rwnd of 0 - new data then stays in the outbound queue for ever while heartbeats keep the
+    association alive. Decided: in handle_sack the wire a_rwnd reaches peer_rwnd only on the edge on which the SACK's
+    cumulative ack is not behind what has already been acknowledged (tsn_gt(<own-space ack point>, cum) false)."""
+    r = RuleResult("R01.16", "K1", "a SACK older than one already processed does not set the peer's window")
+    fn = S + "handle_sack::{closure#0}"
+    b = ctx.body(fn)
+    r.scope.append(fn)
+
+    def wire(v):
+        return mir.has(v, lambda x: x[0] == "call" and x[1].endswith("get_u32")) and not mir.has(v, lambda x: x[0] == "field")
+    sets = []
+    for op in ("store", "swap"):
+        for bi, t, args in core.atomic_sites(b, "peer_rwnd", op):
+            if wire(args[1]):
+                sets.append(bi)
+    r.need("peer_rwnd updates from the SACK in handle_sack", len(sets), 1)
+
+    def fresh(term, meaning, *_):
+        return (term[0] == "call" and term[1].endswith("::tsn_gt") and len(term[2]) == 2 and meaning is False
+                and wire(term[2][1]) and not wire(term[2][0]))
+    g = core.guard_edges(b, fresh)
+    for bi in sets:
+        if g and core.k1(b, [bi], g)[bi] is None:
+            r.ok({"site": b.where(bi), "cut_by": "the SACK's cumulative ack is not behind the acknowledged point"})
+        else:
+            r.violate(fn, "rwnd:stale-sack", b.where(bi),
+                      "the advertised window of ANY SACK is stored, before any freshness test: a delayed SACK carrying a_rwnd = 0 that arrives at an idle "
+                      "sender stops it for good (nothing in flight, so nothing will ever correct the window)")
+    return r
+
+
 def run(ctx):
-    return [r01_1(ctx), r01_2(ctx), r01_3(ctx), r01_4(ctx), r01_5(ctx), r01_6(ctx), r01_7(ctx), r01_8(ctx), r01_9(ctx), r01_10(ctx), r01_11(ctx), r01_12(ctx), r01_13(ctx), r01_14(ctx), r01_15(ctx)]
+    return [r01_1(ctx), r01_2(ctx), r01_3(ctx), r01_4(ctx), r01_5(ctx), r01_6(ctx), r01_7(ctx), r01_8(ctx), r01_9(ctx), r01_10(ctx), r01_11(ctx), r01_12(ctx), r01_13(ctx), r01_14(ctx), r01_15(ctx), r01_16(ctx)]
